@@ -197,6 +197,7 @@ func c18(c *Ctx) {
 			cases = append(cases, reqCase{ID: "shape/" + sc.ID, Files: sc.Files, Gen: sc.Gen})
 		}
 	}
+	cases = append(cases, examplesByKindCases()...)
 	cases = append(cases, yamlRetypeCase(), importedMessagesCase(), threeServicesCase(), yaml11NamesCase(), sameShortNameCase("nested"), sameShortNameCase("top-vs-nested"), sameShortNameCase("imported"), discVariantTypesCase(false), discVariantTypesCase(true), pathVariableSpellingsCase())
 	plugin.Parallel(len(cases), 16, func(i int) {
 		rc := cases[i]
@@ -490,6 +491,52 @@ func yamlRetypeCase() reqCase {
 	f.Services = []*spec.Service{{Name: "YamlService", Comment: "key: value", Headers: []spec.Header{{Name: "X-Mode", Type: "string", Example: "yes", Description: "on: off"}},
 		Methods: []*spec.Method{{Name: "Call", In: "." + pkg + ".YReq", Out: "." + pkg + ".YReq", HTTP: &spec.HTTP{Path: "/y", Verb: 2}, Comment: "- list item looking: [a, b]"}}}}
 	return reqCase{ID: "yaml-retyping", Files: []*spec.File{f}}
+}
+
+// examplesByKindCases: field_examples texts that spell special values of the field's own kind (the
+// proto3-JSON spellings of the non-finite floats, padded and signed numbers, boolean words, numbers
+// beyond the kind's range) on singular, repeated, map-value and NUMBER-encoded fields of every scalar
+// kind: both renderings must exist and denote the same document whatever the texts are.
+func examplesByKindCases() []reqCase {
+	groups := []struct {
+		id    string
+		texts []string
+	}{
+		{"non-finite-words", []string{"NaN", "Infinity", "-Infinity"}},
+		{"non-finite-short-words", []string{"Inf", "+Inf", "-inf", "nan", "INFINITY"}},
+		{"padded-and-signed-numbers", []string{" 12 ", "+5", "-0", "007", "1e2", "1.50"}},
+		{"out-of-range-numbers", []string{"1e400", "-1e400", "99999999999999999999", "-99999999999999999999", "4294967296", "1e-400"}},
+		{"boolean-words", []string{"TRUE", "t", "F", "1", "0", "True"}},
+		{"ordinary", []string{"1", "2.5", "true", "abc"}},
+	}
+	var out []reqCase
+	for gi, g := range groups {
+		pkg := fmt.Sprintf("c18.exk%d", gi)
+		f := &spec.File{Path: fmt.Sprintf("c18/exk%d.proto", gi), Package: pkg, GoImport: fmt.Sprintf("lab/gen/c18exk%d", gi), GoName: fmt.Sprintf("c18exk%d", gi)}
+		m := &spec.Message{Name: "Sample"}
+		num := int32(1)
+		for _, k := range spec.ScalarKinds {
+			kn := strings.ToLower(spec.KindName(k))
+			texts := g.texts
+			add := func(fl *spec.Field) {
+				fl.Ann.Examples = append([]string(nil), texts...)
+				m.Fields = append(m.Fields, fl)
+				num++
+			}
+			add(spec.F("one_"+kn, num, k))
+			add(spec.F("many_"+kn, num, k).Rep())
+			add(spec.F("by_key_"+kn, num, k).MapOf(spec.String))
+			add(spec.F("maybe_"+kn, num, k).Opt())
+			switch k {
+			case spec.Int64, spec.Sint64, spec.Sfixed64, spec.Uint64, spec.Fixed64:
+				add(spec.F("number_"+kn, num, k).With(func(a *spec.Ann) { a.Int64Enc = 2 }))
+			}
+		}
+		f.Messages = []*spec.Message{m}
+		f.Services = []*spec.Service{{Name: fmt.Sprintf("ExampleKind%dService", gi), Methods: []*spec.Method{{Name: "Call", In: "." + pkg + ".Sample", Out: "." + pkg + ".Sample", HTTP: &spec.HTTP{Path: "/exk", Verb: 2}}}}}
+		out = append(out, reqCase{ID: "examples-by-kind/" + g.id, Files: []*spec.File{f}})
+	}
+	return out
 }
 
 func importedMessagesCase() reqCase {
